@@ -88,16 +88,29 @@ func VerifC12Tamper(field int) {
 
 // VerifC12Descriptor: the replication descriptor of a valid group never contains the secret, opens no metadata
 // envelope / message header of the group, and designates the same log addresses.
-func VerifC12Descriptor() {
+// mode 1: the group additionally carries the optional public fields (signing public key, link key and its signature) with
+// FREE values, as a joined invitation may: whenever a descriptor is produced it still carries no secret and opens nothing.
+func VerifC12Descriptor(mode int) {
 	ctx := verif_background()
 	ss := verifSecretStore("s")
 	g, _, err := protocoltypes.NewGroupMultiMember()
 	verif_assume(err == nil)
+	if mode == 1 {
+		g.SignPub = verif_anyBytes("signPub")
+		g.LinkKey = verif_anyBytes("linkKey")
+		g.LinkKeySig = verif_anyBytes("linkKeySig")
+		// whoever wrote the invitation knows the secret and could hand it to anybody directly: copying it into a public
+		// field is not the descriptor's doing
+		verif_assume(!verif_bytesEq(g.SignPub, g.Secret) && !verif_bytesEq(g.LinkKey, g.Secret) && !verif_bytesEq(g.LinkKeySig, g.Secret))
+	}
 	d, err := FilterGroupForReplication(g)
-	verif_assert(err == nil && d != nil, "C12.desc: descriptor is produced")
+	if mode == 0 {
+		verif_assert(err == nil && d != nil, "C12.desc: descriptor is produced")
+	}
 	if err != nil || d == nil {
 		return
 	}
+	verif_reach("C12.desc.produced")
 	verif_assert(len(d.Secret) == 0 && len(d.SecretSig) == 0, "C12.desc: the descriptor carries neither the secret nor its signature")
 	verif_assert(verif_bytesEq(d.PublicKey, g.PublicKey), "C12.desc: same group identifier")
 	verif_assert(!verif_bytesEq(d.LinkKey, g.Secret) && !verif_bytesEq(d.SignPub, g.Secret), "C12.desc: no field equals the secret")
